@@ -60,6 +60,9 @@ structure Cfg where
   /-- source-selected variant of allocate_: when no byte is needed (w x 0 / 0 x h image), does it still build a view of the requested
       dimensions (proposed_fixes/C10-degenerate-image-dimensions.diff), or return before touching _view (image reports 0x0)? -/
   keepDims : Bool := false
+  /-- source-selected variant of move_assign(no_propagate), branch "source owns no storage": does the target take over the source's
+      dimensions (proposed_fixes/C10-move-assign-degenerate-source.diff), or is it reset to 0x0? -/
+  moveKeepsDims : Bool := false
   deriving Repr
 
 def Cfg.tagOf (c : Cfg) (t : Nat) : Nat := if c.empty then 0 else if c.ntags = 0 then t else t % c.ntags
@@ -253,6 +256,15 @@ def pRelease (o : Org) (w : World) (s : Nat) : World :=
   | some a => (release o w a).setImg s (some a.cleared)
   | none => w
 
+/-- move_assign, unequal allocators, source without storage (patched variant): release own storage, build a view of the source's dimensions
+    over the null _memory, reset the source's view -/
+def pTakeDims (o : Org) (w : World) (s s2 : Nat) : World :=
+  match w.imgs s, w.imgs s2 with
+  | some a, some b =>
+    let w := release o w a
+    (w.setImg s (some (Img.withView o a.cleared b.w b.h))).setImg s2 (some { b with w := 0, h := 0, off := 0, row := 0, pix := [] })
+  | _, _ => w
+
 /-- slot used for the temporaries `image tmp(...)` -/
 def tmpSlot : Nat := 6
 
@@ -339,6 +351,7 @@ def stepMoveAssign (c : Cfg) (o : Org) (w : World) (s s2 : Nat) : World × Outco
         let w := pAdopt o w s tmpSlot false
         let w := pRelease o w s2
         (pDtor o w tmpSlot, .ok)
+    else if c.moveKeepsDims then (pTakeDims o w s s2, .ok)
     else (pRelease o w s, .ok)
   | _, _ => (w, .skip)
 
